@@ -63,7 +63,7 @@ fn digest(status: &str, out: &[u8], err: &[u8]) -> String {
     format!("{h:016x}")
 }
 
-const SYNTHETIC: [(&str, &str); 14] = [
+const SYNTHETIC: [(&str, &str); 18] = [
     ("three-coverage-errors", "begin\n  let B = data | +F : Unit | +T : Unit end that\n  let f : Thk (B -> Ret Unit) = { fn v => match v | +T(_) => ret () end } that\n  let g : Thk (B -> Ret Unit) = { fn v => match v | +F(_) => ret () end } that\n  let h : Thk (B * B -> Ret Unit) = { fn v => match v | (+F(_), +T(_)) => ret () end } that\n  ret ()\nend\n"),
     ("duplicate-binders-in-one-pattern", "begin\n  let a = () that\n  let b = () that\n  let (a, b) = ((), ()) that\n  ret ()\nend\n"),
     ("many-unsolved-holes", "begin\n  let f = { fn x => fn y => fn z => ret (x, y, z) } that\n  let g = { fn p => fn q => ret p } that\n  ret ()\nend\n"),
@@ -78,6 +78,11 @@ const SYNTHETIC: [(&str, &str); 14] = [
     ("recursive-value-group-every-member-ill-typed", "begin\n  def fix fa : Thk (Unit -> Ret Unit) = { fn u => do x <- ! fb u; ret (x, x) } that\n  def fix fb : Thk (Unit -> Ret Unit) = { fn u => do x <- ! fc u; ret (x, x) } that\n  def fix fc : Thk (Unit -> Ret Unit) = { fn u => do x <- ! fa u; ret (x, x) } that\n  ret ()\nend\n"),
     ("several-unknown-constructors", "begin\n  let B = data | +F : Unit | +T : Unit end that\n  let a : B = +X1() that\n  let b : B = +X2() that\n  let c : B = +X3() that\n  ret ()\nend\n"),
     ("several-bad-comatches", "begin\n  let O = codata | .p : Ret Unit | .q : Ret Unit end that\n  let a : Thk O = { comatch | .p => ret () end } that\n  let b : Thk O = { comatch | .q => ret () end } that\n  let c : Thk O = { comatch | .p => ret () | .q => ret () | .r => ret () end } that\n  ret ()\nend\n"),
+    // one diagnostic that lists several items: the order inside the list must not vary either
+    ("comatch-missing-many-destructors", "begin\n  let Compass = codata | .north : Ret Unit | .east : Ret Unit | .south : Ret Unit | .west : Ret Unit | .up : Ret Unit | .down : Ret Unit end that\n  let c : Thk Compass = { comatch | .north => ret () end } that\n  ret ()\nend\n"),
+    ("match-missing-many-constructors", "begin\n  let W = data | +Mon : Unit | +Tue : Unit | +Wed : Unit | +Thu : Unit | +Fri : Unit | +Sat : Unit | +Sun : Unit end that\n  let f : Thk (W -> Ret Unit) = { fn d => match d | +Wed(_) => ret () end } that\n  ret ()\nend\n"),
+    ("comatch-unknown-many-destructors", "begin\n  let O = codata | .p : Ret Unit end that\n  let c : Thk O = { comatch | .p => ret () | .q1 => ret () | .q2 => ret () | .q3 => ret () | .q4 => ret () end } that\n  ret ()\nend\n"),
+    ("many-duplicate-binders", "begin\n  let a = () that\n  let b = () that\n  let c = () that\n  let d = () that\n  let (a, b, c, d) = ((), (), (), ()) that\n  let (d, c, b, a) = ((), (), (), ()) that\n  ret ()\nend\n"),
     ("independent-definitions", "begin\n  let z9 = () that\n  let a1 = () that\n  let m5 = () that\n  let q2 = (z9, a1) that\n  let b7 = (m5, q2) that\n  ret (b7, q2, a1)\nend\n"),
 ];
 
